@@ -3,7 +3,8 @@ CONSTANTS
   Emit = @@EMIT@@
   MaxK = @@MAXK@@
   Alias = FALSE
+  ReplySubst = FALSE
 INIT Init
 NEXT Next
-INVARIANTS TypeOK Intact Complete NoDev
+INVARIANTS TypeOK Intact ReplyIntact Complete NoDev
 CHECK_DEADLOCK TRUE
